@@ -1,7 +1,870 @@
+//! C18 correspondence harness: drives the real `ckb-indexer` (Indexer over a
+//! RocksdbStore in a scratch directory, through the verif-hooks wrapper
+//! `service::VerifIndexer`, and the RPC query layer `IndexerHandle`) on
+//! generated chain histories with reorganisations, exactly as IndexerSync
+//! drives it (roll back until the tip is on the main chain, then append).
+//! After every indexer operation a generated set of queries is put to the
+//! implementation; (i) the property predicate — answers == a direct filter over
+//! the harness's own replay of the indexed main chain, and the live rows after
+//! append+rollback == the live rows before — is evaluated in Rust, (ii) the
+//! same operations, queries and observed answers are written as Coq cases for
+//! the model (coq/Indexer/Query.v) to recompute.
+mod spec;
+mod world;
+
 use ckb_indexer::service::VerifIndexer;
+use ckb_jsonrpc_types::{
+    IndexerCellType, IndexerOrder, IndexerRange, IndexerScriptType, IndexerSearchKey,
+    IndexerSearchKeyFilter, IndexerSearchMode, IndexerTx, JsonBytes,
+};
+use ckb_types::{packed, prelude::*, H256};
+use hx_common::*;
+use serde_json::{json, Value};
+use spec::*;
+use std::collections::BTreeMap;
+use std::fs;
+use std::panic::{catch_unwind, AssertUnwindSafe};
+use world::*;
+
+pub struct Violation {
+    pub what: String,
+    pub detail: Value,
+    pub signature: Option<String>,
+}
+
+pub const SIG_PREFIX_QUIRK: &str = "indexer-prefix-search-runs-into-block-number-bytes";
+pub const SIG_CAP_SLEN: &str = "get-cells-capacity-script-len-range-upper-bound-inclusive";
+
+// ---------------------------------------------------------------------------
+// putting a query to the implementation
+fn search_key(q: &SQ, grouped: bool) -> IndexerSearchKey {
+    let f = &q.f;
+    let any = f.script.is_some() || f.slen.is_some() || f.data.is_some() || f.dlen.is_some() || f.cap.is_some() || f.block.is_some();
+    let filter = if any {
+        Some(IndexerSearchKeyFilter {
+            script: f.script.as_ref().map(|s| s.packed().into()),
+            script_len_range: f.slen.map(|(a, b)| IndexerRange::new(a, b)),
+            output_data: f.data.as_ref().map(|(d, _)| JsonBytes::from_vec(d.clone())),
+            output_data_filter_mode: f.data.as_ref().and_then(|(_, m)| match m {
+                0 => None,
+                1 => Some(IndexerSearchMode::Prefix),
+                2 => Some(IndexerSearchMode::Exact),
+                _ => Some(IndexerSearchMode::Partial),
+            }),
+            output_data_len_range: f.dlen.map(|(a, b)| IndexerRange::new(a, b)),
+            output_capacity_range: f.cap.map(|(a, b)| IndexerRange::new(a, b)),
+            block_range: f.block.map(|(a, b)| IndexerRange::new(a, b)),
+        })
+    } else {
+        None
+    };
+    IndexerSearchKey {
+        script: q.script.packed().into(),
+        script_type: if q.lock { IndexerScriptType::Lock } else { IndexerScriptType::Type },
+        script_search_mode: match q.mode {
+            0 => None,
+            1 => Some(IndexerSearchMode::Prefix),
+            2 => Some(IndexerSearchMode::Exact),
+            _ => Some(IndexerSearchMode::Partial),
+        },
+        filter,
+        with_data: None,
+        group_by_transaction: if grouped { Some(true) } else { None },
+    }
+}
+fn order(q: &SQ) -> IndexerOrder {
+    if q.desc { IndexerOrder::Desc } else { IndexerOrder::Asc }
+}
+
+fn ask(ix: &VerifIndexer, w: &World, q: &Q) -> A {
+    let r = catch_unwind(AssertUnwindSafe(|| -> A {
+        match q {
+            Q::Tip => match ix.tip() {
+                Ok(t) => A::Tip(t.map(|(n, h)| (n, w.block_id(&h)))),
+                Err(e) => A::Err(format!("{e:?}")),
+            },
+            Q::Live(lock, s) => match ix.live_cells_by_script(&s.packed(), *lock) {
+                Ok(v) => A::Live(v.iter().map(|op| (w.tx_id(&op.tx_hash()), Into::<u32>::into(op.index()))).collect()),
+                Err(e) => A::Err(format!("{e:?}")),
+            },
+            Q::Txs(lock, s) => match ix.transactions_by_script(&s.packed(), *lock) {
+                Ok(v) => A::Txs(v.iter().map(|h| w.tx_id(h)).collect()),
+                Err(e) => A::Err(format!("{e:?}")),
+            },
+            Q::Cells(sq) => {
+                let h = ix.handle(1_000_000);
+                match h.get_cells(search_key(sq, false), order(sq), sq.limit.into(), sq.after.clone().map(JsonBytes::from_vec)) {
+                    Ok(p) => A::Cells(
+                        p.objects
+                            .iter()
+                            .map(|c| {
+                                let out: packed::CellOutput = c.output.clone().into();
+                                let txh: packed::Byte32 = c.out_point.tx_hash.clone().into();
+                                CellRes {
+                                    tx: w.tx_id(&txh),
+                                    idx: c.out_point.index.value(),
+                                    bn: c.block_number.value(),
+                                    txi: c.tx_index.value(),
+                                    cap: Into::<ckb_types::core::Capacity>::into(out.capacity()).as_u64(),
+                                    out_bytes: out.as_slice().to_vec(),
+                                    data: c.output_data.as_ref().map(|d| d.as_bytes().to_vec()),
+                                }
+                            })
+                            .collect(),
+                        p.last_cursor.as_bytes().to_vec(),
+                    ),
+                    Err(e) => A::Err(format!("{e:?}")),
+                }
+            }
+            Q::Cap(sq) => {
+                let h = ix.handle(1_000_000);
+                match h.get_cells_capacity(search_key(sq, false)) {
+                    Ok(c) => A::Cap(c.map(|c| {
+                        let bh: packed::Byte32 = c.block_hash.clone().into();
+                        (c.capacity.value(), c.block_number.value(), w.block_id(&bh))
+                    })),
+                    Err(e) => A::Err(format!("{e:?}")),
+                }
+            }
+            Q::Trans(sq) | Q::Grouped(sq) => {
+                let grouped = matches!(q, Q::Grouped(_));
+                let h = ix.handle(1_000_000);
+                match h.get_transactions(search_key(sq, grouped), order(sq), sq.limit.into(), sq.after.clone().map(JsonBytes::from_vec)) {
+                    Ok(p) => {
+                        let cur = p.last_cursor.as_bytes().to_vec();
+                        let tid = |h: &H256| -> u64 {
+                            let b: packed::Byte32 = h.clone().into();
+                            w.tx_id(&b)
+                        };
+                        let is_out = |t: &IndexerCellType| matches!(t, IndexerCellType::Output);
+                        if grouped {
+                            A::Grouped(
+                                p.objects
+                                    .iter()
+                                    .filter_map(|t| match t {
+                                        IndexerTx::Grouped(g) => Some(Group {
+                                            tx: tid(&g.tx_hash),
+                                            bn: g.block_number.value(),
+                                            txi: g.tx_index.value(),
+                                            cells: g.cells.iter().map(|(t, i)| (is_out(t), i.value())).collect(),
+                                        }),
+                                        _ => None,
+                                    })
+                                    .collect(),
+                                cur,
+                            )
+                        } else {
+                            A::Trans(
+                                p.objects
+                                    .iter()
+                                    .filter_map(|t| match t {
+                                        IndexerTx::Ungrouped(u) => Some(TxRes {
+                                            tx: tid(&u.tx_hash),
+                                            bn: u.block_number.value(),
+                                            txi: u.tx_index.value(),
+                                            ioi: u.io_index.value(),
+                                            out: is_out(&u.io_type),
+                                        }),
+                                        _ => None,
+                                    })
+                                    .collect(),
+                                cur,
+                            )
+                        }
+                    }
+                    Err(e) => A::Err(format!("{e:?}")),
+                }
+            }
+        }
+    }));
+    match r {
+        Ok(a) => a,
+        Err(_) => A::Panic,
+    }
+}
+
+// ---------------------------------------------------------------------------
+// Coq rendering
+struct Interner {
+    raws: Vec<Vec<u8>>,
+    idx: BTreeMap<Vec<u8>, usize>,
+}
+impl Interner {
+    fn new() -> Self {
+        Interner { raws: vec![], idx: BTreeMap::new() }
+    }
+    fn name(&mut self, raw: &[u8]) -> String {
+        if let Some(i) = self.idx.get(raw) {
+            return format!("s{i}");
+        }
+        let i = self.raws.len();
+        self.raws.push(raw.to_vec());
+        self.idx.insert(raw.to_vec(), i);
+        format!("s{i}")
+    }
+}
+fn cq_opt_range(r: &Option<(u64, u64)>) -> String {
+    coq_option(r, |(a, b)| format!("({}, {})", coq_n(*a as u128), coq_n(*b as u128)))
+}
+fn cq_cursor(it: &mut Interner, c: &[u8], tail: usize) -> String {
+    // key bytes without the KeyPrefix byte: script ++ numbers
+    if c.len() < 1 + tail {
+        return coq_bytes(if c.is_empty() { c } else { &c[1..] });
+    }
+    let body = &c[1..];
+    let (s, nums) = body.split_at(body.len() - tail);
+    format!("({} ++ {})", it.name(s), coq_bytes(nums))
+}
+fn cq_sq(it: &mut Interner, q: &SQ, tail: usize) -> String {
+    let f = &q.f;
+    let fs = match &f.script {
+        Some(s) => format!("(Some {})", it.name(&s.raw())),
+        None => "None".into(),
+    };
+    let fd = coq_option(&f.data, |(d, m)| {
+        format!("({}, {})", coq_bytes(d), match m { 0 | 1 => "DPrefix", 2 => "DExact", _ => "DPartial" })
+    });
+    let after = match &q.after {
+        Some(c) => format!("(Some {})", cq_cursor(it, c, tail)),
+        None => "None".into(),
+    };
+    format!(
+        "(mkSQ {} {} {} {} {} {} (mkF {} {} {} {} {} {}))",
+        coq_bool(q.lock),
+        it.name(&q.script.raw()),
+        coq_bool(q.mode == 2),
+        coq_bool(q.desc),
+        coq_nat(q.limit as u64),
+        after,
+        fs,
+        cq_opt_range(&f.slen),
+        fd,
+        cq_opt_range(&f.dlen),
+        cq_opt_range(&f.cap),
+        cq_opt_range(&f.block)
+    )
+}
+fn n(x: u64) -> String {
+    coq_n(x as u128)
+}
+/// (query, answer) as a Coq pair; None when the pair is not representable in the model
+fn cq_qa(it: &mut Interner, q: &Q, a: &A) -> Option<String> {
+    let s = match (q, a) {
+        (Q::Tip, A::Tip(t)) => format!("(QTip, ATip {})", coq_option(t, |(a, b)| format!("({}, {})", n(*a), n(*b)))),
+        (Q::Live(l, s), A::Live(v)) => format!(
+            "(QLive {} {}, ALive {})",
+            coq_bool(*l),
+            it.name(&s.raw()),
+            coq_list(v, |(t, i)| format!("({}, {})", n(*t), n(*i as u64)))
+        ),
+        (Q::Txs(l, s), A::Txs(v)) => format!("(QTxs {} {}, ATxs {})", coq_bool(*l), it.name(&s.raw()), coq_list(v, |t| n(*t))),
+        (Q::Cells(sq), A::Cells(v, cur)) => format!(
+            "(QCells {}, ACells (Some ({}, {})))",
+            cq_sq(it, sq, 16),
+            coq_list(v, |c| format!("({}, {}, {}, {}, {})", n(c.tx), n(c.idx as u64), n(c.bn), n(c.txi as u64), n(c.cap))),
+            cq_cursor(it, cur, 16)
+        ),
+        (Q::Cells(sq), A::Panic) => format!("(QCells {}, ACells None)", cq_sq(it, sq, 16)),
+        (Q::Cap(sq), A::Cap(c)) => format!(
+            "(QCap {}, ACap (Some {}))",
+            cq_sq(it, sq, 16),
+            coq_option(c, |(c, bn, id)| format!("({}, {}, {})", n(*c), n(*bn), n(*id)))
+        ),
+        (Q::Cap(sq), A::Panic) => format!("(QCap {}, ACap None)", cq_sq(it, sq, 16)),
+        (Q::Trans(sq), A::Trans(v, cur)) => format!(
+            "(QTrans {}, ATrans ({}, {}))",
+            cq_sq(it, sq, 17),
+            coq_list(v, |t| format!("({}, {}, {}, {}, {})", n(t.tx), n(t.bn), n(t.txi as u64), n(t.ioi as u64), coq_bool(t.out))),
+            cq_cursor(it, cur, 17)
+        ),
+        (Q::Grouped(sq), A::Grouped(v, cur)) => format!(
+            "(QGrouped {}, AGrouped ({}, {}))",
+            cq_sq(it, sq, 17),
+            coq_list(v, |g| format!(
+                "({}, {}, {}, {})",
+                n(g.tx),
+                n(g.bn),
+                n(g.txi as u64),
+                coq_list(&g.cells, |(o, i)| format!("({}, {})", coq_bool(*o), n(*i as u64)))
+            )),
+            cq_cursor(it, cur, 17)
+        ),
+        _ => return None,
+    };
+    Some(s)
+}
+fn cq_block(it: &mut Interner, b: &ABlock) -> String {
+    let mut txs = Vec::new();
+    for t in &b.txs {
+        let mut outs = Vec::new();
+        for o in &t.outputs {
+            let ty = match &o.typ {
+                Some(s) => format!("(Some {})", it.name(&s.raw())),
+                None => "None".into(),
+            };
+            outs.push(format!("(mkOut {} {} {} {})", it.name(&o.lock.raw()), ty, n(o.cap), coq_bytes(&o.data)));
+        }
+        txs.push(format!(
+            "(mkTx {} {} {})",
+            n(t.id),
+            coq_list(&t.inputs, |(h, i)| format!("({}, {})", n(*h), n(*i as u64))),
+            coq_list(&outs, |s| s.clone())
+        ));
+    }
+    format!("(mkBlock {} {} {})", n(b.num), n(b.id), coq_list(&txs, |s| s.clone()))
+}
+
+// ---------------------------------------------------------------------------
+#[derive(Default)]
+struct Totals {
+    evaluations: u64,
+    stats: BTreeMap<String, u64>,
+    viol: Vec<Violation>,
+    known_counts: BTreeMap<String, u64>,
+}
+impl Totals {
+    fn bump(&mut self, k: &str) {
+        *self.stats.entry(k.to_string()).or_default() += 1;
+    }
+    fn add(&mut self, k: &str, v: u64) {
+        *self.stats.entry(k.to_string()).or_default() += v;
+    }
+    fn violation(&mut self, v: Violation) {
+        if let Some(s) = &v.signature {
+            let c = self.known_counts.entry(s.clone()).or_default();
+            *c += 1;
+            if *c > 3 {
+                return;
+            }
+        }
+        if self.viol.len() < 60 {
+            self.viol.push(v);
+        }
+    }
+}
+
+struct HistOut {
+    coq_case: String,
+    desc: Value,
+    nontrivial: bool,
+}
+
+fn live_dump(ix: &VerifIndexer) -> Vec<(Vec<u8>, Vec<u8>)> {
+    ix.dump()
+        .into_iter()
+        .filter(|(k, _)| matches!(k.first(), Some(0) | Some(64) | Some(96) | Some(128) | Some(160)))
+        .collect()
+}
+
+/// one history: generate, run on the implementation, check, render
+fn run_history(hseed: u64, thorough: bool, scratch: &std::path::Path, tot: &mut Totals, verbose: bool) -> HistOut {
+    let mut rng = Rng::new(hseed);
+    let keep = *rng.pick(&[2u64, 3, 3, 5, 10]);
+    let interval = *rng.pick(&[1u64, 2, 2, 3, 1000]);
+    let ctx = json!({"history_seed": hseed, "keep_num": keep, "prune_interval": interval});
+    let dir = scratch.join(format!("h{hseed:x}"));
+    let _ = fs::remove_dir_all(&dir);
+    fs::create_dir_all(&dir).unwrap();
+    let ix = VerifIndexer::open(&dir, keep, interval);
+    let mut w = World::new(&mut rng);
+    let mut it = Interner::new();
+    let mut steps_coq: Vec<String> = Vec::new();
+    let mut steps_json: Vec<Value> = Vec::new();
+    let max_ops = if thorough { 60 } else { 34 };
+    let q_per_step = if thorough { 12 } else { 9 };
+
+    // the chain the indexer has indexed, and the node's main chain
+    let mut indexed: Vec<ABlock> = Vec::new();
+    let mut main: Vec<ABlock> = Vec::new();
+    let mut before_stack: Vec<Vec<(Vec<u8>, Vec<u8>)>> = Vec::new(); // live rows before each append
+    let mut floor: u64 = 0; // ghost: lowest block whose rollback data prune has not touched
+    let mut nops = 0usize;
+    let mut nontrivial = false;
+    let mut dead = false;
+
+    while nops < max_ops && !dead {
+        // ---- the node's main chain moves ----
+        if main.is_empty() {
+            let g = w.gen_block(&mut rng, &[], true);
+            main.push(g);
+        } else if rng.chance(2, 5) && indexed.len() >= 2 {
+            // reorganisation: d blocks leave the main chain, d+1.. new ones join
+            let tipn = (indexed.len() - 1) as u64;
+            let maxd = std::cmp::min((tipn.saturating_sub(floor)) as usize, indexed.len() - 1);
+            if maxd >= 1 {
+                let d = rng.range(1, std::cmp::min(maxd, 4) as u64) as usize;
+                let keep_len = main.len() - d;
+                let orphans: Vec<ABlock> = main.split_off(keep_len);
+                w.orphan(&orphans);
+                let newlen = d + 1 + rng.below(2) as usize;
+                for _ in 0..newlen {
+                    let b = w.gen_block(&mut rng, &main, false);
+                    main.push(b);
+                }
+                tot.bump(&format!("reorg_depth_{d}"));
+            } else {
+                let b = w.gen_block(&mut rng, &main, false);
+                main.push(b);
+            }
+        } else {
+            for _ in 0..rng.range(1, 3) {
+                let b = w.gen_block(&mut rng, &main, false);
+                main.push(b);
+            }
+        }
+        // ---- IndexerSync::try_loop_sync ----
+        loop {
+            if nops >= max_ops + 12 {
+                break;
+            }
+            let tip = match catch_unwind(AssertUnwindSafe(|| ix.tip())) {
+                Ok(Ok(t)) => t,
+                _ => {
+                    tot.violation(Violation { what: "tip() failed or panicked".into(), detail: json!({"case": ctx, "step": nops}), signature: None });
+                    dead = true;
+                    break;
+                }
+            };
+            let op: Option<&ABlock>; // Some = append, None = rollback
+            match &tip {
+                Some((tn, th)) => match main.get(*tn as usize + 1) {
+                    Some(b) => {
+                        if b.view.parent_hash() == *th {
+                            op = Some(b);
+                        } else {
+                            op = None;
+                        }
+                    }
+                    None => break,
+                },
+                None => {
+                    if !indexed.is_empty() {
+                        tot.violation(Violation { what: "tip() is None although blocks are indexed".into(), detail: json!({"case": ctx, "step": nops}), signature: None });
+                        dead = true;
+                        break;
+                    }
+                    op = Some(&main[0]);
+                }
+            }
+            let step_no = nops;
+            nops += 1;
+            let op_coq;
+            let op_json;
+            match op {
+                Some(b) => {
+                    before_stack.push(live_dump(&ix));
+                    let r = catch_unwind(AssertUnwindSafe(|| ix.append(&b.view)));
+                    if !matches!(r, Ok(Ok(()))) {
+                        tot.violation(Violation { what: "append failed or panicked on a consistent block".into(), detail: json!({"case": ctx, "step": step_no, "block": b.json()}), signature: None });
+                        dead = true;
+                        break;
+                    }
+                    if b.num % interval == 0 && b.num > keep + 1 {
+                        floor = std::cmp::max(floor, b.num - keep);
+                        tot.bump("prune_fired");
+                    }
+                    indexed.push(b.clone());
+                    tot.bump("op_append");
+                    if b.in_block_spends > 0 {
+                        tot.add("in_block_create_and_spend", b.in_block_spends);
+                        nontrivial = true;
+                    }
+                    op_coq = format!("OAppend {}", cq_block(&mut it, b));
+                    op_json = json!({"append": b.json()});
+                }
+                None => {
+                    let r = catch_unwind(AssertUnwindSafe(|| ix.rollback()));
+                    if !matches!(r, Ok(Ok(()))) {
+                        tot.violation(Violation { what: "rollback failed or panicked".into(), detail: json!({"case": ctx, "step": step_no}), signature: None });
+                        dead = true;
+                        break;
+                    }
+                    let gone = indexed.pop();
+                    tot.bump("op_rollback");
+                    nontrivial = true;
+                    // rollback inverts append: every live row is what it was before the block was appended
+                    if let Some(before) = before_stack.pop() {
+                        let now = live_dump(&ix);
+                        if now != before {
+                            let diff = dump_diff(&before, &now);
+                            tot.violation(Violation {
+                                what: "after append+rollback the live rows (OutPoint / CellLockScript / CellTypeScript / TxLockScript / TxTypeScript) differ from what they were before the append".into(),
+                                detail: json!({"case": ctx, "step": step_no, "rolled_back_block": gone.as_ref().map(|b| b.json()), "difference": diff}),
+                                signature: None,
+                            });
+                        }
+                    }
+                    op_coq = "ORollback".to_string();
+                    op_json = json!("rollback");
+                }
+            }
+            // ---- queries ----
+            let st = replay(&indexed);
+            let mut qs = gen_queries(&mut rng, &w, &st, &indexed, q_per_step);
+            let mut qa_coq: Vec<String> = Vec::new();
+            let mut qa_json: Vec<Value> = Vec::new();
+            let mut qi = 0;
+            while qi < qs.len() {
+                let q = qs[qi].clone();
+                qi += 1;
+                let a = ask(&ix, &w, &q);
+                tot.evaluations += 1;
+                tot.bump(&format!("q_{}", q.kind()));
+                if a.nonempty() {
+                    tot.bump("answers_nonempty");
+                }
+                check_answer(&st, &indexed, &q, &a, &ctx, step_no, tot);
+                // paging: follow the cursor of a short page
+                if let Some(next) = q.next_page(&a) {
+                    if qs.len() < q_per_step + 6 {
+                        qs.push(next);
+                        tot.bump("cursor_followups");
+                    }
+                }
+                if let Some(s) = cq_qa(&mut it, &q, &a) {
+                    qa_coq.push(s);
+                    qa_json.push(json!({"query": q.json(), "answer": a.json()}));
+                }
+            }
+            steps_coq.push(format!("({}, {})", op_coq, coq_list(&qa_coq, |s| s.clone())));
+            steps_json.push(json!({"op": op_json, "queries": qa_json}));
+            if verbose {
+                println!("step {step_no}: {op_json} -> {} queries", qs.len());
+            }
+        }
+    }
+    drop(ix);
+    let _ = fs::remove_dir_all(&dir);
+    let mut lets = String::new();
+    for (i, r) in it.raws.iter().enumerate() {
+        lets.push_str(&format!("let s{i} := {} in ", coq_bytes(r)));
+    }
+    let coq_case = format!("({}mkHist {} {} {})", lets, n(keep), n(interval), coq_list(&steps_coq, |s| s.clone()));
+    let mut desc = ctx.clone();
+    desc["steps"] = json!(steps_json);
+    HistOut { coq_case, desc, nontrivial }
+}
+
+fn dump_diff(a: &[(Vec<u8>, Vec<u8>)], b: &[(Vec<u8>, Vec<u8>)]) -> Value {
+    let ma: BTreeMap<_, _> = a.iter().cloned().collect();
+    let mb: BTreeMap<_, _> = b.iter().cloned().collect();
+    let mut missing = vec![];
+    let mut extra = vec![];
+    let mut changed = vec![];
+    for (k, v) in &ma {
+        match mb.get(k) {
+            None => missing.push(hex(k)),
+            Some(v2) if v2 != v => changed.push(hex(k)),
+            _ => {}
+        }
+    }
+    for k in mb.keys() {
+        if !ma.contains_key(k) {
+            extra.push(hex(k));
+        }
+    }
+    missing.truncate(5);
+    extra.truncate(5);
+    changed.truncate(5);
+    json!({"rows_missing_after_rollback": missing, "rows_left_over_after_rollback": extra, "rows_with_changed_value": changed})
+}
+
 fn main() {
-    let d = hx_common::scratch_dir("C18");
-    let ix = VerifIndexer::open(d.join("a"), 5, 2);
-    println!("{:?}", ix.tip().unwrap().is_none());
-    let _ = std::fs::remove_dir_all(&d);
+    std::panic::set_hook(Box::new(|_| {}));
+    let out = out_dir("C18");
+    if let Ok(p) = std::env::var("HX_REPLAY") {
+        let v: Value = serde_json::from_str(&fs::read_to_string(&p).unwrap()).unwrap();
+        let case = if let Some(vs) = v.get("violations") { vs[0]["detail"]["case"].clone() } else { v["cases"][0]["case"].clone() };
+        let hseed = case["history_seed"].as_u64().expect("history_seed in the replay file");
+        let scratch = scratch_dir("C18");
+        let mut tot = Totals::default();
+        let _ = run_history(hseed, tier_is_thorough(), &scratch, &mut tot, true);
+        let _ = fs::remove_dir_all(&scratch);
+        let mut bad = 0;
+        for x in &tot.viol {
+            println!("PROPERTY VIOLATED{}: {} :: {}", x.signature.as_ref().map(|s| format!(" [known {s}]")).unwrap_or_default(), x.what, x.detail);
+            bad += 1;
+        }
+        println!("replayed history {hseed}: {} queries, {} violations", tot.evaluations, tot.viol.len());
+        std::process::exit(if bad == 0 { 0 } else { 1 });
+    }
+    let seed = seed();
+    let thorough = tier_is_thorough();
+    for e in fs::read_dir(&out).unwrap().flatten() {
+        let nm = e.file_name().to_string_lossy().to_string();
+        if nm.starts_with("cases_") || nm == "summary.json" {
+            let _ = fs::remove_file(e.path());
+        }
+    }
+    let scratch = scratch_dir("C18");
+    let mut rng = Rng::new(seed);
+    let mut tot = Totals::default();
+    let shards = 16usize;
+    let n_hist = if thorough { 160 } else { 32 };
+    let header = "From CKB Require Import Indexer.Query.";
+    let mut files: Vec<CaseFile> = (0..shards)
+        .map(|i| {
+            let mut cf = CaseFile::new(&out, &format!("cases_{:02}", i), header);
+            cf.group("hist", "hist_case", "check_hist");
+            cf
+        })
+        .collect();
+    let mut descs: Vec<BTreeMap<String, Vec<Value>>> = (0..shards).map(|_| BTreeMap::new()).collect();
+    let mut samples: Vec<Value> = Vec::new();
+    let mut distinct = 0u64;
+    // corpus: fixed history seeds that always run first
+    let mut hseeds: Vec<u64> = vec![1, 2];
+    for _ in 0..n_hist {
+        hseeds.push(rng.next());
+    }
+    for (hi, hs) in hseeds.iter().enumerate() {
+        let h = run_history(*hs, thorough, &scratch, &mut tot, false);
+        if h.nontrivial {
+            distinct += 1;
+        }
+        let sh = hi % shards;
+        files[sh].push(0, h.coq_case);
+        let mut small = h.desc.clone();
+        if samples.len() < 2 {
+            // a sample: the first steps only
+            if let Some(st) = small["steps"].as_array() {
+                let cut: Vec<Value> = st.iter().take(2).cloned().collect();
+                small["steps"] = json!(cut);
+            }
+            samples.push(small);
+        }
+        // the replay only needs the seed; keep the description small
+        let d = json!({"history_seed": h.desc["history_seed"], "keep_num": h.desc["keep_num"], "prune_interval": h.desc["prune_interval"],
+                       "steps": h.desc["steps"].as_array().map(|a| a.len())});
+        descs[sh].entry("hist".into()).or_default().push(d);
+    }
+    for (i, cf) in files.iter().enumerate() {
+        cf.write().unwrap();
+        fs::write(out.join(format!("cases_{:02}.json", i)), serde_json::to_string(&descs[i]).unwrap()).unwrap();
+    }
+    let _ = fs::remove_dir_all(&scratch);
+    for (k, v) in &tot.known_counts {
+        tot.stats.insert(format!("known_finding_hits::{k}"), *v);
+    }
+    let summary = json!({
+        "property": "C18",
+        "seed": seed,
+        "evaluations": tot.evaluations,
+        "distinct_nontrivial": distinct,
+        "rule": "evaluations = queries put to the real indexer after an append/rollback of a generated history (IndexerSync loop over a main chain with reorganisations); distinct = histories with at least one rollback or one cell created and spent in the same block",
+        "distribution": tot.stats,
+        "samples": samples,
+        "impl_violations": tot.viol.iter().map(|v| {
+            let mut o = json!({"what": v.what, "detail": v.detail});
+            if let Some(s) = &v.signature { o["signature"] = json!(s); }
+            o
+        }).collect::<Vec<_>>(),
+    });
+    fs::write(out.join("summary.json"), serde_json::to_string_pretty(&summary).unwrap()).unwrap();
+    println!("hx-indexer: {} histories, {} queries, {} implementation-side violations", hseeds.len(), tot.evaluations, tot.viol.len());
+}
+
+// ---------------------------------------------------------------------------
+// the property predicate on one answer
+fn check_answer(st: &ChainState, indexed: &[ABlock], q: &Q, a: &A, ctx: &Value, step: usize, tot: &mut Totals) {
+    let mut fail = |what: String, expected: Value, sig: Option<&str>| {
+        tot.violation(Violation {
+            what,
+            detail: json!({"case": ctx, "step": step, "query": q.json(), "answer": a.json(), "expected": expected}),
+            signature: sig.map(|s| s.to_string()),
+        });
+    };
+    if let A::Panic = a {
+        fail("the query panicked".into(), json!(null), None);
+        return;
+    }
+    match q {
+        Q::Tip => {
+            let want = indexed.last().map(|b| (b.num, b.id));
+            if *a != A::Tip(want) {
+                fail("tip differs from the tip of the indexed main chain".into(), json!(want), None);
+            }
+        }
+        Q::Live(lock, s) => {
+            let want = spec_live(st, *lock, s, false);
+            if *a != A::Live(want.clone()) {
+                let quirk = spec_live(st, *lock, s, true);
+                if *a == A::Live(quirk) {
+                    fail("live cells by script: cells of a shorter script are returned (prefix runs into the block-number bytes of the key)".into(), json!(want), Some(SIG_PREFIX_QUIRK));
+                } else {
+                    fail("live cells by script differ from the filter over the chain's live cells".into(), json!(want), None);
+                }
+            }
+        }
+        Q::Txs(lock, s) => {
+            let want = spec_txs(st, *lock, s, false);
+            if *a != A::Txs(want.clone()) {
+                let quirk = spec_txs(st, *lock, s, true);
+                if *a == A::Txs(quirk) {
+                    fail("transactions by script: rows of a shorter script are returned".into(), json!(want), Some(SIG_PREFIX_QUIRK));
+                } else {
+                    fail("transactions by script differ from the filter over the chain's transactions".into(), json!(want), None);
+                }
+            }
+        }
+        Q::Cells(sq) => {
+            if sq.mode == 3 || sq.limit == 0 {
+                if !matches!(a, A::Err(_)) {
+                    fail("get_cells accepted an unsupported request (partial script search / limit 0)".into(), json!("error"), None);
+                }
+                return;
+            }
+            let got = match a {
+                A::Cells(v, c) => (v, c),
+                _ => {
+                    fail("get_cells failed".into(), json!(null), None);
+                    return;
+                }
+            };
+            let want = spec_cells(st, sq, false, false);
+            let same = |w: &Vec<(Vec<u8>, LiveCell)>| {
+                got.0.len() == w.len()
+                    && got.0.iter().zip(w.iter()).all(|(g, (_, c))| {
+                        g.tx == c.tx && g.idx == c.idx && g.bn == c.bn && g.txi == c.txi && g.cap == c.out.cap
+                            && g.out_bytes == c.out.packed().as_slice().to_vec()
+                            && g.data.as_deref() == Some(&c.out.data[..])
+                    })
+                    && *got.1 == w.last().map(|(k, _)| k.clone()).unwrap_or_default()
+            };
+            if !same(&want) {
+                let quirk = spec_cells(st, sq, true, false);
+                let wj = json!(want.iter().map(|(_, c)| json!([c.tx, c.idx, c.bn, c.txi, c.out.cap])).collect::<Vec<_>>());
+                if same(&quirk) {
+                    fail("get_cells (prefix mode): cells of a shorter script are returned".into(), wj, Some(SIG_PREFIX_QUIRK));
+                } else {
+                    fail("get_cells differs from the filter over the chain's live cells (objects in key order, cursor = key of the last object)".into(), wj, None);
+                }
+            }
+        }
+        Q::Cap(sq) => {
+            if sq.mode == 3 {
+                if !matches!(a, A::Err(_)) {
+                    fail("get_cells_capacity accepted partial script search".into(), json!("error"), None);
+                }
+                return;
+            }
+            let got = match a {
+                A::Cap(c) => c,
+                _ => {
+                    fail("get_cells_capacity failed".into(), json!(null), None);
+                    return;
+                }
+            };
+            let tip = indexed.last().map(|b| (b.num, b.id));
+            let total = |quirk: bool, incl: bool| -> Option<(u64, u64, u64)> {
+                let mut one = sq.clone();
+                one.desc = false;
+                one.limit = u32::MAX;
+                one.after = None;
+                let s: u64 = spec_cells(st, &one, quirk, incl).iter().map(|(_, c)| c.out.cap).sum();
+                tip.map(|(n, i)| (s, n, i))
+            };
+            let want = total(false, false);
+            if *got != want {
+                if *got == total(true, false) {
+                    fail("get_cells_capacity (prefix mode): cells of a shorter script are counted".into(), json!(want), Some(SIG_PREFIX_QUIRK));
+                } else if *got == total(false, true) || *got == total(true, true) {
+                    fail("get_cells_capacity: script_len_range upper bound is treated as inclusive (get_cells and the RPC documentation: exclusive)".into(), json!(want), Some(SIG_CAP_SLEN));
+                } else {
+                    fail("get_cells_capacity differs from the sum over the filtered live cells / the tip".into(), json!(want), None);
+                }
+            }
+        }
+        Q::Trans(sq) => {
+            if sq.mode == 3 || sq.limit == 0 || sq.f.unsupported_for_tx() {
+                if !matches!(a, A::Err(_)) {
+                    fail("get_transactions accepted an unsupported request".into(), json!("error"), None);
+                }
+                return;
+            }
+            let got = match a {
+                A::Trans(v, c) => (v, c),
+                _ => {
+                    fail("get_transactions failed".into(), json!(null), None);
+                    return;
+                }
+            };
+            let want = spec_trans(st, sq, false);
+            let same = |w: &Vec<(Vec<u8>, TxRow)>| {
+                got.0.len() == w.len()
+                    && got.0.iter().zip(w.iter()).all(|(g, (_, r))| g.tx == r.tx && g.bn == r.bn && g.txi == r.txi && g.ioi == r.ioi && g.out == r.out)
+                    && *got.1 == w.last().map(|(k, _)| k.clone()).unwrap_or_default()
+            };
+            if !same(&want) {
+                let wj = json!(want.iter().map(|(_, r)| json!([r.tx, r.bn, r.txi, r.ioi, r.out])).collect::<Vec<_>>());
+                if same(&spec_trans(st, sq, true)) {
+                    fail("get_transactions (prefix mode): rows of a shorter script are returned".into(), wj, Some(SIG_PREFIX_QUIRK));
+                } else {
+                    fail("get_transactions differs from the filter over the chain's transaction history".into(), wj, None);
+                }
+            }
+        }
+        Q::Grouped(sq) => {
+            if sq.mode == 3 || sq.limit == 0 || sq.f.unsupported_for_tx() {
+                if !matches!(a, A::Err(_)) {
+                    fail("get_transactions (grouped) accepted an unsupported request".into(), json!("error"), None);
+                }
+                return;
+            }
+            let got = match a {
+                A::Grouped(v, _) => v,
+                _ => {
+                    fail("get_transactions (grouped) failed".into(), json!(null), None);
+                    return;
+                }
+            };
+            // the rows behind the page, flattened, must be the next rows of the filtered history
+            // and cover whole transactions; at most `limit` groups
+            let check = |quirk: bool| -> bool {
+                let rows = spec_trans_all(st, sq, quirk);
+                let flat: Vec<(u64, u64, u32, u32, bool)> = got.iter().flat_map(|g| g.cells.iter().map(move |(o, i)| (g.tx, g.bn, g.txi, *i, *o))).collect();
+                if got.len() > sq.limit as usize {
+                    return false;
+                }
+                if flat.len() > rows.len() {
+                    return false;
+                }
+                for (f, (_, r)) in flat.iter().zip(rows.iter()) {
+                    if *f != (r.tx, r.bn, r.txi, r.ioi, r.out) {
+                        return false;
+                    }
+                }
+                // groups are maximal runs of one transaction
+                for w2 in got.windows(2) {
+                    if w2[0].tx == w2[1].tx {
+                        return false;
+                    }
+                }
+                if got.iter().any(|g| g.cells.is_empty()) {
+                    return false;
+                }
+                // complete: either everything was returned, or the page is full and the next row starts another transaction
+                if flat.len() < rows.len() {
+                    let next = &rows[flat.len()].1;
+                    if got.len() < sq.limit as usize {
+                        return false;
+                    }
+                    if let Some(last) = got.last() {
+                        // the run may only be cut where a filtered-out row of another transaction interrupts it
+                        if last.tx == next.tx && !spec_run_interrupted(st, sq, quirk, flat.len()) {
+                            return false;
+                        }
+                    }
+                }
+                true
+            };
+            if !check(false) {
+                if check(true) {
+                    fail("get_transactions grouped (prefix mode): rows of a shorter script are returned".into(), json!(null), Some(SIG_PREFIX_QUIRK));
+                } else {
+                    fail("get_transactions (grouped) is not the grouping of the filtered transaction rows".into(), json!(spec_trans_all(st, sq, false).iter().map(|(_, r)| json!([r.tx, r.bn, r.txi, r.ioi, r.out])).collect::<Vec<_>>()), None);
+                }
+            }
+        }
+    }
 }
